@@ -51,9 +51,12 @@ def generate(r, tier):
         "p_self": r.choice([0.3, 0.6]),
         "max_depth": r.choice([1, 2, 3]),
         "max_fanout": r.choice([1, 2, 3]),
-        "p_fault": 0.0,
+        "p_fault": r.choice([0.0, 0.0, 0.2]),
+        "fault_kinds": ["raise", "cancel"] if engine == "loop" else ["raise"],
     }
     scn = {"property": ID, "engine": engine, "world": world, "actors": []}
+    if engine == "loop" and r.random() < 0.25:
+        scn["shared_context"] = True  # all tasks are given the very same Context object
     if engine == "loop" and r.random() < 0.5:
         scn["history"] = [gen.gen_ticket(r, "h.%d" % i, units, dict(profile, p_nested=0.0)) for i in range(r.randint(1, 2))]
     nact = 1 if engine == "sync" else (r.randint(1, 3) if engine == "loop" else 2)
@@ -85,6 +88,8 @@ def generate(r, tier):
             else:
                 script.append(gen.gen_ticket(r, tid, units, profile))
         scn["actors"].append({"name": name, "script": script})
+    if scn.get("shared_context"):
+        scn["after"] = [gen.gen_ticket(r, "z.%d" % i, units, dict(profile, p_nested=0.0, p_fault=0.0)) for i in range(r.randint(1, 3))]
     return scn
 
 
@@ -144,8 +149,24 @@ def _execute(scn):
                 await run.acall(td)
             else:
                 run.call(td)
-        tasks = [loop.create_task(child(a), name=a["name"], context=contextvars.copy_context()) for a in actors]
+        if scn.get("shared_context"):
+            run.actor_by_task = True
+            shared = contextvars.copy_context()
+            tasks = [loop.create_task(child(a), name=a["name"], context=shared) for a in actors]
+        else:
+            tasks = [loop.create_task(child(a), name=a["name"], context=contextvars.copy_context()) for a in actors]
         await asyncio.gather(*tasks)
+        if scn.get("shared_context") and scn.get("after"):
+            # once every task has finished, nothing is in progress in the shared context any more: calls made in it are checked
+            async def after():
+                run.enter_actor("z")
+                for td in scn["after"]:
+                    if run.world.is_async(td):
+                        await run.acall(td)
+                    else:
+                        run.call(td)
+
+            await loop.create_task(after(), name="z", context=shared)
 
     _, vt = simloop.run_in_loop(main, contextvars.Context())
     return run, {"vtime": vt}
@@ -167,12 +188,16 @@ def _relation(tx):
     return rel
 
 
-def judge(run, engine):
+def judge(run, engine, only_actor=None):
     violations = []
     shapes = set()
     reentrant_calls = 0
     for tx in run.txs:
         if tx.outcome is None or tx.outcome["actor"] == "setup":
+            continue
+        if only_actor is not None and tx.outcome["actor"] != only_actor:
+            # tasks that were deliberately given ONE Context see each other's marks by construction; only what happens in
+            # that context after all of them have finished is judged
             continue
         rel = _relation(tx)
         info = tx.info or {}
@@ -190,6 +215,8 @@ def judge(run, engine):
             shapes.add((tuple(sorted(set(rel))), must, info.get("kind"), min(n_re, 3), engine))
         if v[0] == "exc" and v[1] == "TypeError" and tx.td.get("kw"):
             continue  # the call itself was rejected (reserved keyword argument): nothing to check, nothing to run
+        if v[0] == "fault" and tx.bodies == 0 and not (tx.kinds & {"pre", "post", "snap", "err"}):
+            continue  # an injected fault ended the call before its contracts could be reached (e.g. inside an invariant)
         inv_failed_first = v[0] in ("exc", "fault") and v[2] is not None and "/inv" in v[2] and tx.bodies == 0
         if must and has and not observed and not inv_failed_first:
             where = "callee-in-own-body" if "body-same-unit" in rel else ("plain" if not rel else "+".join(sorted(set(rel))))
@@ -249,7 +276,7 @@ def execute(scn):
             "digest": None,
             "stats": {},
         }
-    violations, shapes, nre = judge(run, engine)
+    violations, shapes, nre = judge(run, engine, "z" if scn.get("shared_context") else None)
     seen = set()
     uniq = []
     for v in violations:
